@@ -147,6 +147,10 @@ type issuer struct {
 	// kick: poked when a renewal request is about to return, so that a consumer asks for the SVID at the
 	// very moment the rotation publishes the new one
 	kick chan struct{}
+	// withDir: an identity directory is configured, so every fetch also asks the trust-anchor source
+	withDir bool
+	// anchorsFail: the next CurrentTrustAnchors call fails (scripted "anchors-err" outcome)
+	anchorsFail atomic.Bool
 }
 
 func (is *issuer) poke() {
@@ -203,6 +207,17 @@ func (is *issuer) request(ctx context.Context, csrDER []byte) ([]*x509.Certifica
 	is.mu.Lock()
 	r.pub = pub
 	is.mu.Unlock()
+	anchorsErr := false
+	if oc.Fail && oc.Kind == "anchors-err" {
+		// the issuer answers properly (a short-lived certificate); the fetch fails afterwards, when the trust
+		// anchors cannot be read - but only if an identity directory is configured: otherwise nobody asks
+		// for them and the fetch succeeds
+		if is.withDir {
+			anchorsErr = true
+			is.anchorsFail.Store(true)
+		}
+		oc = outcome{Win: windows[1]}
+	}
 	if oc.Fail && (oc.Kind == "" || oc.Kind == "empty") {
 		is.mu.Lock()
 		r.end = time.Now()
@@ -244,7 +259,7 @@ func (is *issuer) request(ctx context.Context, csrDER []byte) ([]*x509.Certifica
 		return []*x509.Certificate{leaf, intCert}, nil
 	}
 	is.mu.Lock()
-	r.ok, r.nb, r.na, r.serial = true, leaf.NotBefore, leaf.NotAfter, sn
+	r.ok, r.nb, r.na, r.serial = !anchorsErr, leaf.NotBefore, leaf.NotAfter, sn
 	r.anchors = fmt.Sprintf("anchors-v%d", is.anchorsV.Load())
 	r.end = time.Now()
 	is.mu.Unlock()
@@ -268,6 +283,9 @@ func (a anchors) GetX509BundleForTrustDomain(spiffeid.TrustDomain) (*x509bundle.
 	return nil, errors.New("not used")
 }
 func (a anchors) CurrentTrustAnchors(context.Context) ([]byte, error) {
+	if a.is.anchorsFail.Swap(false) {
+		return nil, errors.New("trust anchors: scripted failure")
+	}
 	return []byte(fmt.Sprintf("anchors-v%d", a.is.anchorsV.Load())), nil
 }
 func (a anchors) Watch(ctx context.Context, _ chan<- []byte) { <-ctx.Done() }
@@ -577,7 +595,7 @@ func runRenewal(t *testing.T, idx int, rng *mon.RNG) {
 	var ds []string
 	for i := range script {
 		if i > 0 && rng.Chance(1, 3) {
-			script[i] = outcome{Fail: true, Kind: rng.PickStr("", "", "no-id", "bad-id", "empty")}
+			script[i] = outcome{Fail: true, Kind: rng.PickStr("", "", "no-id", "bad-id", "empty", "anchors-err")}
 			if script[i].Kind != "" {
 				rec.Count("renewal.unusable_answer_scripted", 1)
 			}
@@ -605,7 +623,7 @@ func runRenewal(t *testing.T, idx int, rng *mon.RNG) {
 		defer os.RemoveAll(filepath.Dir(target))
 	}
 	res := mon.Bubble(t, func() {
-		is := &issuer{script: script}
+		is := &issuer{script: script, withDir: withDir}
 		w.is = is
 		var dp *string
 		if withDir {
